@@ -14,6 +14,7 @@ import time
 
 HERE = os.path.dirname(os.path.dirname(os.path.abspath(__file__)))
 REPO = os.environ.get("VERIF_REPO", "/repo")
+OUT = os.environ.get("VERIF_OUT") or os.path.dirname(os.path.dirname(os.path.abspath(__file__)))     # evidence/ and replays/ are written here (default: /verif)
 REPLAY_PY = "/venv/bin/python"
 MAX_REPLAYS = 12
 
@@ -125,7 +126,8 @@ def main(argv=None):
     if not a.prop:
         ap.error("property id required")
     prop = a.prop
-    fams = [f for f in core.FAMILIES.values() if prop in f.props]
+    # ALL: every family once (development aid for mutation campaigns; no property claims it, the evidence goes to evidence/ALL.json)
+    fams = [f for f in core.FAMILIES.values() if prop in f.props or prop == "ALL"]
     if a.tier == "quick":
         fams = [f for f in fams if f.tier == "quick"]
     if a.family:
@@ -173,7 +175,7 @@ def main(argv=None):
 
     # replay unlisted failures on the real code (at most MAX_REPLAYS are executed;
     # the rest are reported with their replay script attached but not run)
-    rdir = os.path.join(HERE, "replays", prop)
+    rdir = os.path.join(OUT, "replays", prop)
     lines = []
     todo = [r for r in violations if r.get("replay") and r["replay"].get("script")][:MAX_REPLAYS]
     if todo:
@@ -188,7 +190,7 @@ def main(argv=None):
         rp = r.get("replay") or {}
         r["verifier_output"] = dict(backend=r.get("backend"), model=r.get("model"), vc=r.get("vc"), detail=r.get("detail"))
         json.dump(r, open(path, "w"), indent=1, default=str)
-        rel = os.path.relpath(path, HERE)
+        rel = os.path.relpath(path, OUT)
         if rp.get("confirmed"):
             lines.append(f"VIOLATION property={prop} replay={rel}")
         elif "confirmed" in rp and r.get("backend") == "exhaustive-finite" and not r.get("model"):
@@ -285,8 +287,8 @@ def main(argv=None):
         wall_s=round(time.time() - t0, 2),
         violations=len(violations),
     )
-    os.makedirs(os.path.join(HERE, "evidence"), exist_ok=True)
-    json.dump(ev, open(os.path.join(HERE, "evidence", f"{prop}.json"), "w"), indent=1, default=str)
+    os.makedirs(os.path.join(OUT, "evidence"), exist_ok=True)
+    json.dump(ev, open(os.path.join(OUT, "evidence", f"{prop}.json"), "w"), indent=1, default=str)
 
     print(f"{prop}: {len(discharged)}/{n_all} obligations discharged "
           f"({', '.join(f'{k}:{v}' for k, v in sorted(backends.items()))}); "
